@@ -3,188 +3,91 @@ Helper lemmas for the model of the version converter (C15).
 -/
 import OdmlModel.Model.Conv
 import OdmlModel.Proofs.Str
+import OdmlModel.Proofs.Csv
+
+/-! ## to_csv / from_csv (the lemmas of C01, `Proofs/Csv.lean`) -/
+
+namespace Xml
+open Py Py.Csv
+
+/-- `from_csv` restores every list of values `to_csv` has written, up to the trimming `to_csv`
+    does (the statement of `C01.csv_roundtrip`, proved here from the same lemmas so that C15 does
+    not depend on the theorems of C01). -/
+theorem fromCsv_toCsv (vs : List (List Char)) : fromCsv (toCsv vs) = .ok (vs.map strip) := by
+  simp only [toCsv, dropLast2_writeRow]
+  generalize vs.map strip = uv
+  match uv with
+  | [] => simp [rowBody, joinFields, fromCsv]
+  | [s] =>
+    simp only
+    split
+    · rename_i hc
+      simp only [Bool.and_eq_true, Bool.not_eq_true', List.isEmpty_eq_false_iff] at hc
+      have hne : s ≠ [] := hc.1
+      simp [fromCsv, hne, hc.2]
+    · by_cases hs : s = []
+      · subst hs; decide
+      · have hb : rowBody [s] ≠ [] := by
+          have : ([s] == [[]]) = false := by simp [hs]
+          simp only [rowBody, this, joinFields, Bool.false_eq_true, ↓reduceIte]
+          unfold renderField
+          split
+          · simp
+          · exact hs
+        exact fromCsv_wrap [s] (by simp) hb
+  | f :: g :: gs => exact fromCsv_wrap _ (by simp) (rowBody_ne_nil_of_two f g gs)
+
+end Xml
 
 namespace Conv
-open Xml
+open Conv.Xml
 
 @[simp] theorem tag_elem (t a x k) : (Xml.elem t a x k).tag = t := rfl
 @[simp] theorem attrs_elem (t a x k) : (Xml.elem t a x k).attrs = a := rfl
 @[simp] theorem text_elem (t a x k) : (Xml.elem t a x k).text = x := rfl
 @[simp] theorem kids_elem (t a x k) : (Xml.elem t a x k).kids = k := rfl
 
-/-! ## csv.reader on plain fields -/
+/-! ## The value loop: the collected texts -/
 
-/-- A character a plain value may contain. -/
-def plainChar (c : Char) : Bool := c != ',' && c != '"' && c != '\n' && c != '\r'
+theorem strip_nil : Py.strip [] = [] := by decide
 
-theorem plainText_iff (s : List Char) : plainText s = s.all plainChar := rfl
+/-- A text holds a value iff it is not blank. -/
+theorem collect_eq (vals : List (List Char)) (t : List Char) :
+    collect vals t = if Py.strip t ≠ [] then vals ++ [t] else vals := by
+  unfold collect
+  by_cases ht : t = []
+  · subst ht; simp [strip_nil]
+  · simp [ht]
 
-theorem csvRun_inField_plain (f rest fld : List Char) (acc : List (List Char))
-    (first : Option (List (List Char))) (hf : f.all plainChar = true) :
-    csvRun ⟨.inField, fld, acc⟩ first (f ++ rest) = csvRun ⟨.inField, fld ++ f, acc⟩ first rest := by
-  induction f generalizing fld with
-  | nil => simp
-  | cons c cs ih =>
-    simp only [List.all_cons, Bool.and_eq_true] at hf
-    obtain ⟨hc, hcs⟩ := hf
-    simp only [plainChar, Bool.and_eq_true, bne_iff_ne, ne_eq] at hc
-    obtain ⟨⟨⟨h1, h2⟩, h3⟩, h4⟩ := hc
-    have hnl : isNl c = false := by simp [isNl, h3, h4]
-    have hcomma : (c == ',') = false := by simp [h1]
-    have hn : (c == '\n') = false := by simp [h3]
-    simp only [List.cons_append, csvRun, csvChar, hnl, hcomma, hn, Bool.false_eq_true, ↓reduceIte,
-      Csv.add]
-    rw [ih _ hcs]
-    simp
-
-theorem csvRun_start_plain (c : Char) (rest : List Char) (acc : List (List Char))
-    (first : Option (List (List Char))) (st : CsvSt) (hst : st = .startField ∨ st = .startRecord)
-    (hc : plainChar c = true) :
-    csvRun ⟨st, [], acc⟩ first (c :: rest) = csvRun ⟨.inField, [c], acc⟩ first rest := by
-  simp only [plainChar, Bool.and_eq_true, bne_iff_ne, ne_eq] at hc
-  obtain ⟨⟨⟨h1, h2⟩, h3⟩, h4⟩ := hc
-  have hnl : isNl c = false := by simp [isNl, h3, h4]
-  have hcomma : (c == ',') = false := by simp [h1]
-  have hq : (c == '"') = false := by simp [h2]
-  have hn : (c == '\n') = false := by simp [h3]
-  rcases hst with rfl | rfl <;>
-    simp [csvRun, csvChar, hnl, hcomma, hq, hn, Csv.add]
-
-theorem csvRun_inField_comma (rest fld : List Char) (acc : List (List Char))
-    (first : Option (List (List Char))) :
-    csvRun ⟨.inField, fld, acc⟩ first (',' :: rest) = csvRun ⟨.startField, [], acc ++ [fld]⟩ first rest := by
-  simp [csvRun, csvChar, isNl, Csv.save]
-
-/-- `,v2,v3…` after the first field -/
-def tailOf (vs : List (List Char)) : List Char := vs.flatMap (fun v => ',' :: v)
-
-theorem tailOf_snoc (vs : List (List Char)) (v : List Char) :
-    tailOf (vs ++ [v]) = tailOf vs ++ ',' :: v := by
-  simp [tailOf, List.flatMap_append]
-
-theorem csvRun_tail (vs : List (List Char)) (fld : List Char) (acc : List (List Char))
-    (hp : ∀ v ∈ vs, v.all plainChar = true) (hne : ∀ v ∈ vs, v ≠ []) :
-    csvRun ⟨.inField, fld, acc⟩ none (tailOf vs) = some (acc ++ fld :: vs) := by
-  induction vs generalizing fld acc with
-  | nil => simp [tailOf, csvRun, csvEol, Csv.save]
-  | cons v vs ih =>
-    have hv := hp v (by simp)
-    have hvne := hne v (by simp)
-    cases v with
-    | nil => exact absurd rfl hvne
-    | cons c f =>
-      simp only [List.all_cons, Bool.and_eq_true] at hv
-      have : tailOf ((c :: f) :: vs) = ',' :: c :: (f ++ tailOf vs) := by simp [tailOf]
-      rw [this, csvRun_inField_comma, csvRun_start_plain c _ _ _ _ (Or.inl rfl) hv.1,
-        csvRun_inField_plain f _ _ _ _ hv.2,
-        ih _ _ (fun v hv => hp v (by simp [hv])) (fun v hv => hne v (by simp [hv]))]
-      simp
-
-/-- csv.reader gives back the plain, non-empty fields that were joined with commas. -/
-theorem csvRun_joined (v : List Char) (vs : List (List Char)) (hv : v.all plainChar = true) (hvne : v ≠ [])
-    (hp : ∀ w ∈ vs, w.all plainChar = true) (hne : ∀ w ∈ vs, w ≠ []) :
-    csvRun csvInit none (v ++ tailOf vs) = some (v :: vs) := by
-  cases v with
-  | nil => exact absurd rfl hvne
-  | cons c f =>
-    simp only [List.all_cons, Bool.and_eq_true] at hv
-    simp only [csvInit, List.cons_append]
-    rw [csvRun_start_plain c _ _ _ _ (Or.inr rfl) hv.1, csvRun_inField_plain f _ _ _ _ hv.2,
-      csvRun_tail vs _ _ hp hne]
-    simp
-
-/-! ## The value loop: texts -/
-
-/-- The text state of the value loop depends on the value texts only. -/
-def foldAll (m : List Char) (b : Bool) : List (List Char) → List Char × Bool
-  | [] => (m, b)
-  | t :: ts => foldAll (foldText m b t).1 (foldText m b t).2 ts
-
-theorem valueLoop_text (pid : PropId) (vals : List Xml) (s : VState) :
-    ((valueLoop pid vals s).main, (valueLoop pid vals s).multi)
-      = foldAll s.main s.multi (vals.map Xml.text) := by
+/-- The collected texts depend on the value texts only: the non-blank ones, in order. -/
+theorem valueLoop_vals (pid : PropId) (vals : List Xml) (s : VState) :
+    (valueLoop pid vals s).vals =
+      s.vals ++ (vals.map Xml.text).filter (fun t => decide (Py.strip t ≠ [])) := by
   induction vals generalizing s with
-  | nil => simp [valueLoop, foldAll]
-  | cons v vs ih => simp only [valueLoop, List.map_cons, foldAll]; rw [ih]
+  | nil => simp [valueLoop]
+  | cons v vs ih =>
+    simp only [valueLoop, List.map_cons, List.filter_cons]
+    rw [ih]
+    simp only [collect_eq]
+    by_cases h : Py.strip v.text = [] <;> simp [h]
 
 /-- Stripped, non-blank texts. -/
 def stripped (ts : List (List Char)) : List (List Char) :=
   ts.filterMap (fun t => if Py.strip t = [] then none else some (Py.strip t))
 
-theorem strip_nil : Py.strip [] = [] := by decide
-
-theorem tailOf_cons (v : List Char) (vs : List (List Char)) :
-    tailOf (v :: vs) = ',' :: v ++ tailOf vs := by simp [tailOf]
-
-theorem foldAll_nonempty (m : List Char) (b : Bool) (ts : List (List Char)) (hm : m ≠ [])
-    (hg : ∀ t ∈ ts, t = [] ∨ Py.strip t ≠ []) :
-    foldAll m b ts = (m ++ tailOf (stripped ts), b || !(stripped ts).isEmpty) := by
-  induction ts generalizing m b with
-  | nil => simp [foldAll, stripped, tailOf]
+theorem map_strip_filter (ts : List (List Char)) :
+    (ts.filter (fun t => decide (Py.strip t ≠ []))).map Py.strip = stripped ts := by
+  induction ts with
+  | nil => rfl
   | cons t ts ih =>
-    have ht := hg t (by simp)
-    have hg' : ∀ t ∈ ts, t = [] ∨ Py.strip t ≠ [] := fun t h => hg t (by simp [h])
-    rcases ht with rfl | ht
-    · simp only [foldAll, foldText]
-      simp only [ne_eq, not_true_eq_false, ↓reduceIte]
-      rw [ih m b hm hg']
-      simp [stripped, strip_nil]
-    · have htne : t ≠ [] := by intro h; subst h; exact ht strip_nil
-      simp only [foldAll, foldText, ne_eq, htne, not_false_eq_true, ↓reduceIte, hm]
-      rw [ih _ _ (by simp) hg']
-      have : stripped (t :: ts) = Py.strip t :: stripped ts := by simp [stripped, ht]
-      rw [this, tailOf_cons]
-      simp
+    by_cases h : Py.strip t = []
+    · simp [stripped, h] at ih ⊢; exact ih
+    · simp [stripped, h] at ih ⊢; exact ih
 
-theorem foldAll_empty (b : Bool) (ts : List (List Char))
-    (hg : ∀ t ∈ ts, t = [] ∨ Py.strip t ≠ []) :
-    foldAll [] b ts =
-      match stripped ts with
-      | [] => ([], b)
-      | v :: vs => (v ++ tailOf vs, b || !vs.isEmpty) := by
-  induction ts generalizing b with
-  | nil => simp [foldAll, stripped]
-  | cons t ts ih =>
-    have ht := hg t (by simp)
-    have hg' : ∀ t ∈ ts, t = [] ∨ Py.strip t ≠ [] := fun t h => hg t (by simp [h])
-    rcases ht with rfl | ht
-    · simp only [foldAll, foldText, ne_eq, not_true_eq_false, ↓reduceIte]
-      rw [ih b hg']
-      simp [stripped, strip_nil]
-    · have htne : t ≠ [] := by intro h; subst h; exact ht strip_nil
-      have : stripped (t :: ts) = Py.strip t :: stripped ts := by simp [stripped, ht]
-      simp only [foldAll, foldText, ne_eq, htne, not_false_eq_true, ↓reduceIte, not_true_eq_false]
-      rw [foldAll_nonempty _ _ _ ht hg', this]
-
-theorem fromCsv_bracket (m : List Char) (hm : m ≠ []) :
-    fromCsv ('[' :: (m ++ [']'])) = csvRun csvInit none m := by
-  have hlast : ('[' :: (m ++ [']'])).getLast? = some ']' := by
-    have : ('[' :: (m ++ [']'])) = ('[' :: m) ++ [']'] := rfl
-    rw [this, List.getLast?_concat]
-  have hslice : Py.slice1m1 ('[' :: (m ++ [']'])) = m := by
-    simp [Py.slice1m1]
-  unfold fromCsv
-  rw [hlast, hslice]
-  simp [hm]
-
-/-- What the strict reader gets back from the text the converter writes, for plain values. -/
-theorem fromCsv_mainText (v : List Char) (vs : List (List Char))
-    (hv : plainText v = true) (hvne : v ≠ []) (hp : ∀ w ∈ vs, plainText w = true)
-    (hne : ∀ w ∈ vs, w ≠ []) (hb : vs = [] → bracketed v = false) :
-    fromCsv (mainText (v ++ tailOf vs) (!vs.isEmpty)) = some (v :: vs) := by
-  cases vs with
-  | nil =>
-    have hb' := hb rfl
-    simp only [tailOf, List.flatMap_nil, List.append_nil, List.isEmpty_nil, Bool.not_true, mainText,
-      Bool.false_eq_true, ↓reduceIte, fromCsv, hvne]
-    simp only [bracketed] at hb'
-    simp [hb']
-  | cons w ws =>
-    have hmain : v ++ tailOf (w :: ws) ≠ [] := by simp [hvne]
-    simp only [List.isEmpty_cons, Bool.not_false, mainText, ↓reduceIte]
-    show fromCsv ('[' :: ((v ++ tailOf (w :: ws)) ++ [']'])) = _
-    rw [fromCsv_bracket _ hmain]
-    exact csvRun_joined v (w :: ws) hv hvne hp hne
+/-- What the strict reader gets back from the text the converter writes. -/
+theorem fromCsv_mainText (ws : List (List Char)) :
+    fromCsv (mainText false ws) = some (ws.map Py.strip) := by
+  simp [fromCsv, mainText, _root_.Xml.fromCsv_toCsv]
 
 /-! ## strip -/
 
@@ -233,6 +136,42 @@ theorem strip_ne_nil_of_part (a v b : List Char) (hv : v.all Py.isSpace = false)
   simp only [List.all_append, Bool.and_eq_true] at h
   rw [h.1.2] at hv
   cases hv
+
+/-- The text written for a non-empty list of non-blank values is not blank (so the reader
+    does not skip the element). -/
+theorem strip_mainText_ne_nil (ws : List (List Char)) (hne : ws ≠ [])
+    (hv : ∀ w ∈ ws, Py.strip w ≠ []) : Py.strip (mainText false ws) ≠ [] := by
+  have h := _root_.Xml.fromCsv_toCsv ws
+  simp only [mainText, Bool.false_eq_true, ↓reduceIte]
+  generalize _root_.Xml.toCsv ws = t at h
+  unfold _root_.Xml.fromCsv at h
+  split at h
+  · -- empty text: read as no value
+    cases ws with
+    | nil => exact absurd rfl hne
+    | cons w ws => simp at h
+  · split at h
+    · -- bracketed: starts with '['
+      rename_i hb
+      cases t with
+      | nil => simp [_root_.Xml.bracketed] at hb
+      | cons c cs =>
+        have hc : c = '[' := by
+          simp only [_root_.Xml.bracketed, List.head?_cons, Bool.and_eq_true, beq_iff_eq,
+            Option.some.injEq] at hb
+          exact hb.1
+        subst hc
+        have := strip_ne_nil_of_part [] ['['] cs (by decide)
+        simpa using this
+    · -- a single value, written as it is (stripped)
+      cases ws with
+      | nil => exact absurd rfl hne
+      | cons w ws =>
+        simp only [List.map_cons, Except.ok.injEq, List.cons.injEq] at h
+        have hw := hv w (by simp)
+        rw [h.1]
+        have := strip_ne_nil_of_part [] (Py.strip w) [] (strip_not_all_space w hw)
+        simpa using this
 
 /-! ## The last loop of `_handle_properties` and the reader -/
 
@@ -297,76 +236,144 @@ theorem suffix_inj {a b : List Char} {j k : Nat} (h : suffix a j = suffix b k) :
     (by simpa using dash_not_in_digits k) h'
   exact ⟨by simpa using this.2, natToDigits_inj (by simpa using this.1)⟩
 
-/-- The names a group of siblings gets (specification): `prev` are the earlier siblings. -/
-def names10 (prev : List (List Char)) : List (List Char) → List (List Char)
-  | [] => []
-  | n :: rest => name10 prev n :: names10 (n :: prev) rest
+/-! ## The next free suffix -/
 
-/-- Where a converted name comes from. -/
-theorem mem_names10 {y : List Char} {prev ns : List (List Char)} (h : y ∈ names10 prev ns) :
-    (y ∈ ns ∧ prev.count y = 0) ∨
-    (∃ m ∈ ns, ∃ k, prev.count m < k ∧ k ≤ prev.count m + ns.count m ∧ y = suffix m k) := by
-  induction ns generalizing prev with
-  | nil => simp [names10] at h
-  | cons n rest ih =>
-    simp only [names10, List.mem_cons] at h
-    rcases h with h | h
-    · by_cases hc : prev.count n = 0
-      · left; simp [h, name10, hc]
-      · right
-        refine ⟨n, by simp, prev.count n + 1, by omega, ?_, by simp [h, name10, hc]⟩
-        simp
-    · rcases ih h with ⟨h1, h2⟩ | ⟨m, hm, k, h1, h2, h3⟩
-      · left
-        refine ⟨by simp [h1], ?_⟩
-        rw [List.count_cons] at h2; omega
-      · right
-        refine ⟨m, by simp [hm], k, ?_, ?_, h3⟩
-        · rw [List.count_cons] at h1; omega
-        · rw [List.count_cons] at h1 h2 ⊢; split <;> simp_all <;> omega
+theorem nextFree_ge (n : List Char) (used : List (List Char)) (fuel k : Nat) :
+    k ≤ nextFree n used fuel k := by
+  induction fuel generalizing k with
+  | zero => simp [nextFree]
+  | succ f ih =>
+    simp only [nextFree]
+    split
+    · have := ih (k + 1); omega
+    · exact Nat.le_refl k
 
-/-- Sibling names are unique after suffixing, for any number of clashes, as long as no sibling
-    is literally called like a suffixed name the converter can produce. -/
-theorem names10_nodup (all : List (List Char)) (L : Nat)
-    (H : ∀ a ∈ all, ∀ k, k ≤ L → suffix a k ∉ all) (ns prev : List (List Char))
-    (hp : ∀ x ∈ prev, x ∈ all) (hn : ∀ x ∈ ns, x ∈ all)
-    (hL : ∀ a, prev.count a + ns.count a ≤ L) : (names10 prev ns).Nodup := by
-  induction ns generalizing prev with
-  | nil => simp [names10]
-  | cons n rest ih =>
-    simp only [names10, List.nodup_cons]
-    have hnall : n ∈ all := hn n (by simp)
-    have hL' : ∀ a, (n :: prev).count a + rest.count a ≤ L := by
-      intro a; have := hL a; rw [List.count_cons] at this ⊢; split <;> simp_all <;> omega
-    refine ⟨?_, ih (n :: prev) (by intro x hx; simp at hx; rcases hx with rfl | hx; exact hnall; exact hp x hx)
-      (fun x hx => hn x (by simp [hx])) hL'⟩
-    intro hmem
-    rcases mem_names10 hmem with ⟨h1, h2⟩ | ⟨m, hm, k, h1, h2, h3⟩
-    · -- the later one keeps its own name
-      by_cases hc : prev.count n = 0
-      · simp only [name10, hc, ↓reduceIte] at h2
-        simp at h2
-      · simp only [name10, hc, ↓reduceIte] at h1
-        have hle : prev.count n + 1 ≤ L := by
-          have := hL n; simp at this; omega
-        exact H n hnall _ hle (hn _ (by simp [h1]))
-    · have hkL : k ≤ L := by have := hL' m; omega
-      have hmall : m ∈ all := hn m (by simp [hm])
-      by_cases hc : prev.count n = 0
-      · simp only [name10, hc, ↓reduceIte] at h3
-        exact H m hmall k hkL (h3 ▸ hnall)
-      · simp only [name10, hc, ↓reduceIte] at h3
-        obtain ⟨hnm, hk⟩ := suffix_inj h3
-        subst hnm
-        simp at h1
+/-- With the first candidate free, it is taken (the behaviour before the repair). -/
+theorem nextFree_of_free (n : List Char) (used : List (List Char)) (fuel k : Nat)
+    (h : suffix n k ∉ used) : nextFree n used fuel k = k := by
+  cases fuel with
+  | zero => rfl
+  | succ f => simp [nextFree, h]
+
+theorem nextFree_free_aux (n : List Char) (used : List (List Char)) (fuel : Nat) :
+    ∀ (used' : List (List Char)) (k : Nat), used'.length ≤ fuel →
+      (∀ j, k ≤ j → (suffix n j ∈ used ↔ suffix n j ∈ used')) →
+      suffix n (nextFree n used fuel k) ∉ used := by
+  induction fuel with
+  | zero =>
+    intro used' k hl hiff
+    have : used' = [] := List.eq_nil_of_length_eq_zero (by omega)
+    subst this
+    simp only [nextFree]
+    intro hm
+    have := (hiff k (Nat.le_refl k)).1 hm
+    simp at this
+  | succ f ih =>
+    intro used' k hl hiff
+    simp only [nextFree]
+    split
+    · rename_i hm
+      have hm' : suffix n k ∈ used' := (hiff k (Nat.le_refl k)).1 hm
+      apply ih (used'.erase (suffix n k)) (k + 1)
+      · rw [List.length_erase_of_mem hm']
+        have : 0 < used'.length := List.length_pos_of_mem hm'
         omega
+      · intro j hj
+        have hne : suffix n j ≠ suffix n k := by
+          intro e
+          have := (suffix_inj e).2
+          omega
+        rw [hiff j (by omega), List.mem_erase_of_ne hne]
+    · assumption
+
+/-- The loop of `_change_entity_name` ends with a name no other sibling has. -/
+theorem nextFree_free (n : List Char) (used : List (List Char)) (k : Nat) :
+    suffix n (nextFree n used used.length k) ∉ used :=
+  nextFree_free_aux n used used.length used k (Nat.le_refl _) (fun _ _ => Iff.rfl)
+
+/-! ## Sibling names: the specification -/
+
+/-- The names a group of siblings gets (specification): `prev` are the source names of the
+    earlier siblings, `done` the names they got. -/
+def names10 (done prev : List (List Char)) : List (List Char) → List (List Char)
+  | [] => []
+  | n :: rest =>
+    name10 (done ++ rest) prev n :: names10 (done ++ [name10 (done ++ rest) prev n]) (n :: prev) rest
+
+/-- A renamed sibling never gets the name of another sibling; one that keeps its name is the
+    first with that name. -/
+theorem name10_not_in_done (done rest prev : List (List Char)) (n : List Char)
+    (hb : n ∈ done → prev.count n ≠ 0) : name10 (done ++ rest) prev n ∉ done := by
+  unfold name10
+  split
+  · rename_i hc; exact fun h => hb h hc
+  · intro h
+    exact nextFree_free n (done ++ rest) _ (List.mem_append_left _ h)
+
+theorem name10_not_in_rest (done rest prev : List (List Char)) (n : List Char)
+    (hc : prev.count n ≠ 0) : name10 (done ++ rest) prev n ∉ rest := by
+  unfold name10
+  rw [if_neg hc]
+  intro h
+  exact nextFree_free n (done ++ rest) _ (List.mem_append_right _ h)
+
+/-- **Sibling names are unique after suffixing**, for any names and any number of clashes.
+    Invariant: the names handed out so far are pairwise different, and a later sibling whose
+    source name is among them is not the first with that name. -/
+theorem names10_nodup (ns done prev : List (List Char)) (ha : done.Nodup)
+    (hb : ∀ x ∈ ns, x ∈ done → prev.count x ≠ 0) : (done ++ names10 done prev ns).Nodup := by
+  induction ns generalizing done prev with
+  | nil => simpa [names10] using ha
+  | cons n rest ih =>
+    simp only [names10]
+    have hy : name10 (done ++ rest) prev n ∉ done :=
+      name10_not_in_done done rest prev n (hb n (by simp))
+    have ha' : (done ++ [name10 (done ++ rest) prev n]).Nodup := by
+      rw [List.nodup_append]
+      refine ⟨ha, by simp, ?_⟩
+      intro a ha1 b hb1
+      simp only [List.mem_singleton] at hb1
+      subst hb1
+      intro e; subst e; exact hy ha1
+    have hb' : ∀ x ∈ rest, x ∈ done ++ [name10 (done ++ rest) prev n] → (n :: prev).count x ≠ 0 := by
+      intro x hx hmem
+      simp only [List.mem_append, List.mem_singleton] at hmem
+      rcases hmem with hd | he
+      · have := hb x (by simp [hx]) hd
+        rw [List.count_cons]; split <;> omega
+      · by_cases hc : prev.count n = 0
+        · have : x = n := by rw [he]; simp [name10, hc]
+          subst this
+          simp
+        · exact absurd (he ▸ hx) (name10_not_in_rest done rest prev n hc)
+    have := ih (done ++ [name10 (done ++ rest) prev n]) (n :: prev) ha' hb'
+    simpa [List.append_assoc] using this
+
+/-- The names before the repair: the k-th sibling with a name already used gets `-k`. -/
+def name10Legacy (prev : List (List Char)) (n : List Char) : List Char :=
+  if prev.count n = 0 then n else suffix n (prev.count n + 1)
+
+def names10Legacy (prev : List (List Char)) : List (List Char) → List (List Char)
+  | [] => []
+  | n :: rest => name10Legacy prev n :: names10Legacy (n :: prev) rest
+
+/-- Where the number of the occurrence gives a free name, it is the one taken. -/
+theorem name10_default (used prev : List (List Char)) (n : List Char)
+    (h : suffix n (prev.count n + 1) ∉ used) : name10 used prev n = name10Legacy prev n := by
+  unfold name10 name10Legacy
+  split
+  · rfl
+  · rw [nextFree_of_free _ _ _ _ h]
 
 /-! ## `_change_entity_name` (occurrence map) against the specification (counting) -/
 
-/-- The names `_change_entity_name` hands out to a run of siblings, starting from map `m`. -/
-def bumpAll (m : Counter) : List (List Char) → List (List Char)
+/-- The names `_change_entity_name` hands out to a run of siblings, starting from map `m`;
+    `done` are the names the earlier siblings have got. -/
+def bumpAll (m : Counter) (done : List (List Char)) : List (List Char) → List (List Char)
   | [] => []
-  | n :: rest => (bump m n).2 :: bumpAll (bump m n).1 rest
+  | n :: rest =>
+    (bump m (done ++ rest) n).2 ::
+      bumpAll (bump m (done ++ rest) n).1 (done ++ [(bump m (done ++ rest) n).2]) rest
 
 /-- The map records, per name, the number of earlier siblings with that name. -/
 def Rep (m : Counter) (prev : List (List Char)) : Prop :=
@@ -397,8 +404,8 @@ theorem lookup_setCount (m : Counter) (n a : List Char) (v : Nat) :
         · have hne : (a == n') = false := by simp [h2]
           simp [setCount, hn, List.lookup, hne, ih, h]
 
-theorem bump_spec (m : Counter) (prev : List (List Char)) (n : List Char) (h : Rep m prev) :
-    (bump m n).2 = name10 prev n ∧ Rep (bump m n).1 (n :: prev) := by
+theorem bump_spec (m : Counter) (used prev : List (List Char)) (n : List Char) (h : Rep m prev) :
+    (bump m used n).2 = name10 used prev n ∧ Rep (bump m used n).1 (n :: prev) := by
   have hn := h n
   by_cases hc : prev.count n = 0
   · simp only [hc, ↓reduceIte] at hn
@@ -419,37 +426,30 @@ theorem bump_spec (m : Counter) (prev : List (List Char)) (n : List Char) (h : R
     · have hne' : (n == a) = false := by simp; exact fun h => ha h.symm
       simp [ha, h a, List.count_cons, hne']
 
-theorem bumpAll_eq_names10 (m : Counter) (prev ns : List (List Char)) (h : Rep m prev) :
-    bumpAll m ns = names10 prev ns := by
-  induction ns generalizing m prev with
+theorem bumpAll_eq_names10 (m : Counter) (done prev ns : List (List Char)) (h : Rep m prev) :
+    bumpAll m done ns = names10 done prev ns := by
+  induction ns generalizing m done prev with
   | nil => rfl
   | cons n rest ih =>
-    obtain ⟨h1, h2⟩ := bump_spec m prev n h
+    obtain ⟨h1, h2⟩ := bump_spec m (done ++ rest) prev n h
     simp only [bumpAll, names10, h1]
-    rw [ih _ _ h2]
+    rw [ih _ _ _ h2]
 
 theorem rep_nil : Rep [] [] := by intro a; simp [List.lookup]
-
-theorem noSuffixClash_H (ns : List (List Char)) (h : noSuffixClash ns = true) :
-    ∀ a ∈ ns, ∀ k, k ≤ ns.length → suffix a k ∉ ns := by
-  intro a ha k hk
-  simp only [noSuffixClash, List.all_eq_true, List.mem_range, Bool.not_eq_eq_eq_not, Bool.not_true,
-    List.contains_eq_mem, decide_eq_false_iff_not] at h
-  exact h a ha k (by omega)
 
 /-! ## Stage 1 on a group of siblings -/
 
 theorem p1_tag (k : Xml) : (p1 k).tag = k.tag := by cases k; simp [p1, Xml.tag]
-theorem p1_kids (k : Xml) : (p1 k).kids = p1Kids (k.tag == "section") [] [] k.kids := by
+theorem p1_kids (k : Xml) : (p1 k).kids = p1Kids (k.tag == "section") [] [] [] [] k.kids := by
   cases k; simp [p1, Xml.kids, Xml.tag]
 theorem rename_tag (n : List Char) (k : Xml) : (rename n k).tag = k.tag := by
   cases k; simp [rename, Xml.tag]
 theorem rename_kids (n : List Char) (k : Xml) :
     (rename n k).kids = setFirstText "name" n k.kids := by cases k; simp [rename, Xml.kids]
 
-theorem find_isSome_p1Kids (t : String) (b : Bool) (sm pm : Counter) (ks : List Xml) :
-    (find t (p1Kids b sm pm ks)).isSome = (find t ks).isSome := by
-  induction ks generalizing sm pm with
+theorem find_isSome_p1Kids (t : String) (b : Bool) (sm pm : Counter) (sd pd : List (List Char))
+    (ks : List Xml) : (find t (p1Kids b sm pm sd pd ks)).isSome = (find t ks).isSome := by
+  induction ks generalizing sm pm sd pd with
   | nil => simp [p1Kids]
   | cons k ks ih =>
     simp only [p1Kids]
@@ -482,38 +482,44 @@ theorem find_isSome_setFirstText (t : String) (n : List Char) (ks : List Xml) :
 
 theorem secNames_cons (k : Xml) (ks : List Xml) :
     secNames (k :: ks) =
-      if k.tag = "section" then findText "name" k.kids :: secNames ks else secNames ks := by
-  by_cases h : k.tag = "section" <;> simp [secNames, List.filter_cons, h]
+      if k.tag = "section" ∧ (find "name" k.kids).isSome = true
+      then findText "name" k.kids :: secNames ks else secNames ks := by
+  by_cases h : k.tag = "section" <;> by_cases h2 : (find "name" k.kids).isSome = true <;>
+    simp [secNames, List.filter_cons, h, h2]
 
-/-- The Section children of any node come out of stage 1 with the names the occurrence map
-    hands out, in order. -/
-theorem secNames_p1Kids (b : Bool) (sm pm : Counter) (ks : List Xml)
-    (hn : ∀ k ∈ ks, k.tag = "section" → (find "name" k.kids).isSome = true) :
-    secNames (p1Kids b sm pm ks) = bumpAll sm (secNames ks) := by
-  induction ks generalizing sm pm with
+/-- The named Section children of any node come out of stage 1 with the names the occurrence
+    map hands out, in order. -/
+theorem secNames_p1Kids (b : Bool) (sm pm : Counter) (sd pd : List (List Char)) (ks : List Xml) :
+    secNames (p1Kids b sm pm sd pd ks) = bumpAll sm sd (secNames ks) := by
+  induction ks generalizing sm pm sd pd with
   | nil => simp [p1Kids, secNames, bumpAll]
   | cons k ks ih =>
-    have hn' : ∀ k ∈ ks, k.tag = "section" → (find "name" k.kids).isSome = true :=
-      fun k hk => hn k (by simp [hk])
     by_cases hs : k.tag = "section"
-    · have hk := hn k (by simp) hs
-      cases hf : find "name" k.kids with
-      | none => simp [hf] at hk
-      | some nm =>
-        have hft : findText "name" k.kids = nm.text := by simp [findText, hf]
+    · cases hf : find "name" k.kids with
+      | none =>
         simp only [p1Kids, hs, ↓reduceIte, hf]
         rw [secNames_cons, secNames_cons]
-        simp only [rename_tag, p1_tag, hs, ↓reduceIte, bumpAll, hft, rename_kids, p1_kids]
-        rw [findText_setFirstText _ _ _ (by rw [find_isSome_p1Kids]; simp [hf]), ih _ _ hn']
-    · have hs' : ¬ (k.tag = "section") := hs
-      simp only [p1Kids, hs, ↓reduceIte]
+        have h1 : (find "name" (p1 k).kids).isSome = false := by
+          rw [p1_kids, find_isSome_p1Kids]; simp [hf]
+        simp only [p1_tag, hs, h1, hf, Option.isSome_none, Bool.false_eq_true, and_false, ↓reduceIte]
+        exact ih _ _ _ _
+      | some nm =>
+        have hft : findText "name" k.kids = nm.text := by simp [findText, hf]
+        have h1 : (find "name" (p1 k).kids).isSome = true := by
+          rw [p1_kids, find_isSome_p1Kids]; simp [hf]
+        simp only [p1Kids, hs, ↓reduceIte, hf]
+        rw [secNames_cons, secNames_cons]
+        simp only [rename_tag, p1_tag, hs, rename_kids, find_isSome_setFirstText, h1, hf,
+          Option.isSome_some, and_self, ↓reduceIte, bumpAll, hft]
+        rw [findText_setFirstText _ _ _ h1, ih]
+    · simp only [p1Kids, hs, ↓reduceIte]
       rw [secNames_cons]
-      simp only [hs, ↓reduceIte]
+      simp only [hs, false_and, ↓reduceIte]
       split
       · split
-        · rw [secNames_cons]; simp only [rename_tag, hs, ↓reduceIte]; exact ih _ _ hn'
-        · rw [secNames_cons]; simp only [hs, ↓reduceIte]; exact ih _ _ hn'
-      · rw [secNames_cons]; simp only [hs, ↓reduceIte]; exact ih _ _ hn'
+        · rw [secNames_cons]; simp only [rename_tag, hs, false_and, ↓reduceIte]; exact ih _ _ _ _
+        · rw [secNames_cons]; simp only [hs, false_and, ↓reduceIte]; exact ih _ _ _ _
+      · rw [secNames_cons]; simp only [hs, false_and, ↓reduceIte]; exact ih _ _ _ _
 
 theorem propNames_cons (k : Xml) (ks : List Xml) :
     propNames (k :: ks) =
@@ -524,9 +530,9 @@ theorem propNames_cons (k : Xml) (ks : List Xml) :
 
 /-- The named Property children of a Section come out of stage 1 with the names the occurrence
     map hands out, in order. -/
-theorem propNames_p1Kids (sm pm : Counter) (ks : List Xml) :
-    propNames (p1Kids true sm pm ks) = bumpAll pm (propNames ks) := by
-  induction ks generalizing sm pm with
+theorem propNames_p1Kids (sm pm : Counter) (sd pd : List (List Char)) (ks : List Xml) :
+    propNames (p1Kids true sm pm sd pd ks) = bumpAll pm pd (propNames ks) := by
+  induction ks generalizing sm pm sd pd with
   | nil => simp [p1Kids, propNames, bumpAll]
   | cons k ks ih =>
     by_cases hs : k.tag = "section"
@@ -535,8 +541,8 @@ theorem propNames_p1Kids (sm pm : Counter) (ks : List Xml) :
       rw [propNames_cons k ks]
       simp only [hnp, false_and, ↓reduceIte]
       split
-      · rw [propNames_cons]; simp only [rename_tag, p1_tag, hnp, false_and, ↓reduceIte]; exact ih _ _
-      · rw [propNames_cons]; simp only [p1_tag, hnp, false_and, ↓reduceIte]; exact ih _ _
+      · rw [propNames_cons]; simp only [rename_tag, p1_tag, hnp, false_and, ↓reduceIte]; exact ih _ _ _ _
+      · rw [propNames_cons]; simp only [p1_tag, hnp, false_and, ↓reduceIte]; exact ih _ _ _ _
     · by_cases hp : k.tag = "property"
       · simp only [p1Kids, hs, ↓reduceIte]
         simp only [hp, Bool.and_true, decide_true, ↓reduceIte]
@@ -747,6 +753,98 @@ theorem propCleanup_find (pid : PropId) (t : String) (ht : t ∈ propKeys) (ht1 
       · simp only [find, tag_elem, hr, ↓reduceIte, hk]; exact ih
       · simp only [find, hk, ↓reduceIte]; exact ih
 
+
+/-! ## No 1.0 value element is left behind -/
+
+def isV (k : Xml) : Bool := k.tag == "value"
+
+theorem find_none_iff (t : String) (ks : List Xml) : find t ks = none ↔ ∀ k ∈ ks, k.tag ≠ t := by
+  induction ks with
+  | nil => simp [find]
+  | cons k ks ih =>
+    by_cases hk : k.tag = t
+    · simp [find, hk]
+    · simp [find, hk, ih]
+
+theorem findLast_none_of_find (t : String) (ks : List Xml) (h : find t ks = none) :
+    findLast t ks = none := by
+  unfold findLast
+  rw [find_none_iff] at h ⊢
+  intro k hk
+  exact h k (List.mem_reverse.1 hk)
+
+theorem versionMap_target_ne_value (s m : String) (h : versionMap.lookup s = some m) :
+    m ≠ "value" := by
+  simp only [versionMap, List.lookup] at h
+  split at h
+  · cases h; decide
+  · split at h
+    · cases h; decide
+    · cases h
+
+theorem valueElems_ne_value (v : Xml) : ∀ d ∈ valueElems v, d.tag ≠ "value" := by
+  intro d hd
+  simp only [valueElems, List.mem_filter, bne_iff_ne, ne_eq] at hd
+  exact hd.2
+
+/-- `_handle_value` adds no `value` child to the Property. -/
+theorem hve_filter_value (pid : PropId) (ds cur : List Xml) (log : Log)
+    (hd : ∀ d ∈ ds, d.tag ≠ "value") :
+    (handleValueElems pid ds cur log).1.filter isV = cur.filter isV := by
+  induction ds generalizing cur log with
+  | nil => rfl
+  | cons d ds ih =>
+    have hd' : ∀ d' ∈ ds, d'.tag ≠ "value" := fun d' h => hd d' (List.mem_cons_of_mem _ h)
+    have hdt : d.tag ≠ "value" := hd d (by simp)
+    simp only [handleValueElems]
+    split
+    · exact ih _ _ hd'
+    · split
+      · split <;> (rw [ih _ _ hd']; simp [List.filter_append, isV, leaf, hdt])
+      · split
+        · rename_i m hm
+          have hm' : m ≠ "value" := versionMap_target_ne_value _ _ hm
+          split <;> (rw [ih _ _ hd']; simp [List.filter_append, isV, leaf, hm'])
+        · exact ih _ _ hd'
+
+theorem removeFirst_filter_value (ks : List Xml) :
+    (removeFirst "value" ks).filter isV = (ks.filter isV).drop 1 := by
+  induction ks with
+  | nil => rfl
+  | cons k ks ih =>
+    by_cases hk : k.tag = "value"
+    · simp [removeFirst, hk, isV, List.filter_cons]
+    · have hb : isV k = false := by simp [isV, hk]
+      simp only [removeFirst, hk, ↓reduceIte, List.filter_cons, hb, Bool.false_eq_true]
+      exact ih
+
+/-- Every round of the value loop removes one `value` child. -/
+theorem valueLoop_filter_value (pid : PropId) (vals : List Xml) (s : VState) :
+    (valueLoop pid vals s).cur.filter isV = (s.cur.filter isV).drop vals.length := by
+  induction vals generalizing s with
+  | nil => simp [valueLoop]
+  | cons v vs ih =>
+    simp only [valueLoop]
+    rw [ih]
+    simp only [removeFirst_filter_value, hve_filter_value _ _ _ _ (valueElems_ne_value v),
+      List.drop_drop, List.length_cons]
+    congr 1
+    omega
+
+/-- After the loop over all value elements of a Property no `value` child is left. -/
+theorem valueLoop_no_value (pid : PropId) (p : Xml) (vals0 : List (List Char)) (log : Log) :
+    find "value" (valueLoop pid (valuesOf p) { cur := p.kids, vals := vals0, log := log }).cur = none := by
+  rw [find_none_iff]
+  have h := valueLoop_filter_value pid (valuesOf p) { cur := p.kids, vals := vals0, log := log }
+  have hv : valuesOf p = p.kids.filter isV := rfl
+  simp only [hv, List.drop_length] at h
+  intro k hk hkt
+  have : k ∈ List.filter isV (valueLoop pid (List.filter isV p.kids)
+      { cur := p.kids, vals := vals0, log := log }).cur := by
+    rw [hv] at hk
+    exact List.mem_filter.2 ⟨hk, by simp [isV, hkt]⟩
+  rw [h] at this
+  cases this
 
 /-! ## `vals10` in terms of `stripped` -/
 
